@@ -176,7 +176,7 @@ PROPS.update({
     ),
     "C18": dict(
         theorems=["readExact_schedule_free", "readLine_schedule_free", "readToEnd_schedule_free", "readNpy_schedule_free", "readText_schedule_free", "detect_schedule_free",
-                  "read_failure_surfaces_npy", "read_failure_is_io_npy", "read_failure_surfaces_text", "writeAll_schedule_free", "writeNpy_schedule_free", "writeText_schedule_free",
+                  "read_failure_surfaces_npy", "read_failure_is_io_npy", "read_failure_surfaces_text", "read_failure_is_io_text", "writeAll_schedule_free", "writeNpy_schedule_free", "writeText_schedule_free",
                   "write_failure_surfaces_npy", "write_failure_surfaces_text", "source_prefix_len", "create_read_failure_surfaces", "create_read_failure_surfaces_bytes"],
         modules=["SfsModel.Props.C18", "SfsModel.Props.Tie", "SfsModel.Props.C18B"],
         nontrivial=r"^(rdnpy-|rdtext-|wr-|geno-)",
